@@ -53,3 +53,13 @@ Theorem bw_find_correct_for_every_built_automaton :
   forall h : list N, Forall (fun b => b < 256) h -> bw_find_iter V A h = Ok (spec_find V pvs h).
 Proof. exact built_find. Qed.
 Print Assumptions bw_find_correct_for_every_built_automaton.
+
+Theorem cw_find_correct_for_every_built_automaton :
+  forall (V : Type) (veqb : V -> V -> bool), (forall a b, veqb a b = true <-> a = b) ->
+  forall nfb (pvs : list (list N * V)) (A : cw_automaton V),
+    4 * total_len V pvs <= U32_MAX - 1 ->
+    cw_build_with_values V Standard nfb pvs = Ok A ->
+  forall cs : list N, Forall scalar cs ->
+    cw_find_iter V A (encode_utf8 cs) = Ok (map (to_bytes V cs) (spec_find V pvs cs)).
+Proof. exact cw_built_find. Qed.
+Print Assumptions cw_find_correct_for_every_built_automaton.
